@@ -487,6 +487,12 @@ func genSoil(r *RNG, p *Profile, pt *ParamTables, ptf int, id string, gwShallow 
 			if h.Corg > 6 {
 				h.Corg = round(r.FRange(0, 6), 2)
 			}
+			if r.Bool(0.3) {
+				// the soil file also carries explicit field capacity / wilting point columns (left from a table export);
+				// with a transfer function selected they are not the source of the parameters
+				h.WP = r.Range(3, 30)
+				h.FC = r.Range(h.WP+4, min(h.WP+30, h.PS))
+			}
 		default:
 			h.Sand, h.Silt, h.Clay = 0, 0, 0
 		}
